@@ -16,6 +16,7 @@ mod c06;
 mod c12;
 mod c13;
 mod c17;
+mod c20;
 mod canon;
 mod framework;
 mod gate;
@@ -41,6 +42,7 @@ fn registry() -> Vec<Arc<dyn Check>> {
     v.push(Arc::new(c17::C17));
     v.push(Arc::new(c12::C12));
     v.push(Arc::new(c13::C13));
+    v.push(Arc::new(c20::C20));
     v
 }
 
